@@ -361,16 +361,26 @@ class ExprParser:
             return self.lit_to(("lit", None, v), int(m.group(2)[1:])) if m.group(2) else ("lit", None, v)
         if tok in ("true", "false"):
             return ("blit", "bool", tok == "true")
+        if tok == "which":
+            # the validity set of `if let MinidumpContextValidity::Some(ref which) = valid`
+            for want in (".", "contains", "(", "reg", ")"):
+                self.take(want)
+            return ("bvar", "bool", "$contains")
         if tok == self.recv:
             self.take(".")
             field = self.take()
+            if field == "memoize_register" and self.peek() == "(":
+                for want in ("(", "reg", ")", ".", "is_some", "(", ")"):
+                    self.take(want)
+                return ("bvar", "bool", "$memo")
             if field == "get_register_always" and self.peek() == "(":
                 # the forwarded CpuContext call, as a variable of the context's Register type
                 for want in ("(", "reg", ")"):
                     self.take(want)
                 return ("var", self.tr.widths[self.ctx], "$ga")
             if field == "register_is_valid" and self.peek() == "(":
-                for want in ("(", "reg", ",", "&", "self", ".", "valid", ")"):
+                # dispatch arms pass `&self.valid`, the trait's own get_register passes its `valid` parameter
+                for want in (("(", "reg", ",", "&", "self", ".", "valid", ")") if self.recv == "ctx" else ("(", "reg", ",", "valid", ")")):
                     self.take(want)
                 return ("bvar", "bool", "$iv")
             idx = None
@@ -660,8 +670,10 @@ class Tr:
                 die(w + " register_is_valid: unexpected shape %r" % norm(b)[:80])
             e = match_brace(b, m.end() - 1)
             inner, tail = b[m.end():e], norm(b[e + 1:])
-            if tail != "else { self.memoize_register(reg).is_some() }":
+            mt = re.fullmatch(r"else \{ (.+) \}", tail)
+            if not mt:
                 die(w + " register_is_valid: else branch is %r" % tail[:80])
+            t["valid_all"] = self.accessor(mt.group(1), ctxname, w + " register_is_valid (validity All)", recv="self", want="bool")
             body, rest = self.single_match(inner, "reg", w + " register_is_valid")
             if rest:
                 die(w + " register_is_valid: trailing code")
@@ -670,8 +682,7 @@ class Tr:
                 if default_seen:
                     die(w + " register_is_valid: arm after `_`")
                 if pat == "_":
-                    if norm(rhs) != "which.contains(reg)":
-                        die(w + " register_is_valid: default arm %r" % rhs[:80])
+                    t["valid_default"] = self.accessor(rhs, ctxname, w + " register_is_valid `_` arm", recv="self", want="bool")
                     default_seen = True
                     continue
                 alts = []
@@ -694,8 +705,6 @@ class Tr:
 
     # ---------------------------------------------------------------- trait defaults (modelled by hand in C18/Model.v)
     EXPECTED_DEFAULTS = {
-        "register_is_valid": "if let MinidumpContextValidity::Some(ref which) = *valid { which.contains(reg) } else { self.memoize_register(reg).is_some() }",
-        "get_register": "if self.register_is_valid(reg, valid) { Some(self.get_register_always(reg)) } else { None }",
         "memoize_register": "default_memoize_register(Self::REGISTERS, reg)",
         "format_register": 'format!( "0x{:01$x}", self.get_register_always(reg), mem::size_of::<Self::Register>() * 2 )',
         "registers": "self.valid_registers(&MinidumpContextValidity::All)",
@@ -715,6 +724,18 @@ class Tr:
             die("context.rs: trait CpuContext not found")
         e = match_brace(s, m.end() - 1)
         fns = self.fns_of_block(s[m.end():e], "trait CpuContext")
+        got = fns.get("register_is_valid")
+        mm = got and re.fullmatch(r"if let MinidumpContextValidity::Some\(ref which\) = \*?valid \{ (.+) \} else \{ (.+) \}", norm(got[1]))
+        if not mm:
+            die("context.rs: default body of CpuContext::register_is_valid has an unexpected shape: %r" % (norm(got[1]) if got else None))
+        wd = "context.rs trait CpuContext register_is_valid"
+        self.default_valid = (self.accessor(mm.group(1), None, wd + " (Some branch)", recv="self", want="bool"),
+                              self.accessor(mm.group(2), None, wd + " (All branch)", recv="self", want="bool"))
+        got = fns.get("get_register")
+        mm = got and re.fullmatch(r"if (.+) \{ Some\(self\.get_register_always\(reg\)\) \} else \{ None \}", norm(got[1]))
+        if not mm:
+            die("context.rs: default body of CpuContext::get_register has an unexpected shape: %r" % (norm(got[1]) if got else None))
+        self.get_register_cond = self.accessor(mm.group(1), None, "context.rs trait CpuContext get_register condition", recv="self", want="bool")
         for name, want in self.EXPECTED_DEFAULTS.items():
             got = fns.get(name)
             if not got or norm(got[1]) != want:
@@ -865,6 +886,9 @@ class Tr:
             t["sp_acc"] = disp[v]["sp_acc"]
             t["ip_acc"] = disp[v]["ip_acc"]
             t["memo_cmp"] = self.memo_cmp
+            t["get_cond"] = self.get_register_cond
+            if not t["custom_valid"]:
+                t["valid_default"], t["valid_all"] = self.default_valid
             for key in ("md_get", "md_valid", "md_filter"):
                 t[key] = disp[v][key]
             t["fields"] = [(f, wl[0], -1 if wl[1] is None else wl[1]) for f, wl in self.structs[cname].items() if wl is not None]
@@ -902,7 +926,8 @@ def show_aexp(e):
     if k == "blit":
         return "true" if e[2] else "false"
     if k in ("var", "bvar"):
-        return {"$ga": "ctx.get_register_always(reg)", "$iv": "ctx.register_is_valid(reg, &self.valid)"}.get(e[2], e[2])
+        return {"$ga": "ctx.get_register_always(reg)", "$iv": "register_is_valid(reg, valid)",
+                "$contains": "which.contains(reg)", "$memo": "self.memoize_register(reg).is_some()"}.get(e[2], e[2])
     if k == "cast":
         return "(%s as u%d)" % (show_aexp(e[2]), e[1])
     if k in ("not", "bnot"):
@@ -1000,6 +1025,12 @@ def emit(tables):
         o.append("  ct_memo := %s;" % coq_list("(%s, %s)" % (coq_list(coq_str(p) for p in ps), coq_str(c)) for ps, c in t["memo"]))
         o.append("  ct_memo_cmp := %d;" % t["memo_cmp"])
         o.append("  ct_groups := %s;" % coq_list("(%s, %s)" % (coq_list(coq_str(p) for p in ps), coq_list(coq_str(a) for a in al)) for ps, al in t["groups"]))
+        o.append("  (* register_is_valid: under All %s; under Some(which), names without an arm: %s (%s) *)"
+                 % (show_aexp(t["valid_all"]), show_aexp(t["valid_default"]), "own body" if t["custom_valid"] else "trait default"))
+        o.append("  (* get_register: Some(get_register_always(reg)) when %s *)" % show_aexp(t["get_cond"]))
+        o.append("  ct_get_cond := %s;" % coq_bexp(t["get_cond"]))
+        o.append("  ct_valid_all := %s;" % coq_bexp(t["valid_all"]))
+        o.append("  ct_valid_default := %s;" % coq_bexp(t["valid_default"]))
         o.append("  ct_sp_name := %s;" % coq_str(t["sp_name"]))
         o.append("  ct_ip_name := %s;" % coq_str(t["ip_name"]))
         o.append("  (* get_stack_pointer: %s *)" % show_aexp(t["sp_acc"]))
